@@ -305,8 +305,8 @@ func drawDurationString(t *rapid.T) strCase {
 
 func TestDurationParse(t *testing.T) {
 	pbt.Run(t, pbt.Prop[strCase]{
-		Name: "duration-parse",
-		Rule: "strings for a Duration (top level or message field): grammar-derived (optional sign, integer part empty/0/boundary/up to 22 digits/with leading zeros, fraction absent/'.'/1..12 digits/all 0s or 9s), one-character mutations of grammatical strings over the alphabet [+-0-9.se ], alphabet soups, hostile constants; accepted iff ^[+-]?((0|[1-9][0-9]*)(\\.[0-9]{0,9})?|\\.[0-9]{1,9})s$ and |seconds| <= 315576000000, with the exact (seconds, nanos); superfluous leading zeros are unspecified. non-trivial = verdict depends on a single character class (fraction length 9/10, seconds within 1 of the bound, missing digits, sign)",
+		Name:  "duration-parse",
+		Rule:  "strings for a Duration (top level or message field): grammar-derived (optional sign, integer part empty/0/boundary/up to 22 digits/with leading zeros, fraction absent/'.'/1..12 digits/all 0s or 9s), one-character mutations of grammatical strings over the alphabet [+-0-9.se ], alphabet soups, hostile constants; accepted iff ^[+-]?((0|[1-9][0-9]*)(\\.[0-9]{0,9})?|\\.[0-9]{1,9})s$ and |seconds| <= 315576000000, with the exact (seconds, nanos); superfluous leading zeros are unspecified. non-trivial = verdict depends on a single character class (fraction length 9/10, seconds within 1 of the bound, missing digits, sign)",
 		Draw:  drawDurationString,
 		Check: checkDurationString,
 		NonTrivial: func(c strCase) bool {
@@ -325,7 +325,7 @@ func TestDurationParse(t *testing.T) {
 			v := parseDurationRef(c.S)
 			return []string{"gen:" + c.Class, v.Class + ":" + v.Why}
 		},
-		Quick: 120000, Thorough: 600000,
+		Quick: 120000, Thorough: 500000,
 	})
 }
 
